@@ -154,7 +154,14 @@ func runC05(c *Ctx) {
 			content = randBytes(rng, rng.Intn(200))
 		}
 		if i == 5 {
-			content = randBytes(rng, c.Bound(16384, 65536))
+			// at and just above 64 KiB: the DER lengths around the content need three octets
+			content = randBytes(rng, 65536+rng.Intn(3)*rng.Intn(300))
+		}
+		if i%6 == 2 {
+			// an earlier signing in this process failed in the signer (and the caller tries again):
+			// nothing of it may show in the next result
+			bad := &recSigner{key: key, fail: true}
+			catch(func() { pkcs7.SignPKCS7(bad, cert, oid, randBytes(rng, 1+rng.Intn(100))) })
 		}
 		class := fmt.Sprintf("%s/rsa%d/serial%dB", oidClass, bits, len(cert.SerialNumber.Bytes()))
 		rec := &recSigner{key: key}
